@@ -25,6 +25,11 @@ pub struct Style {
     pub hex: bool,
     /// free-spacing mode: `(?x)` prefix, blanks and comments between tokens
     pub freespace: bool,
+    /// what is put between tokens in free-spacing mode: 0 one blank, 1 a `#` comment, a
+    /// newline and a blank, 2 a tab, two consecutive comment lines and blanks
+    pub fs_kind: u8,
+    /// also put it after `(`, `|`, before `)`, `|`, around quantifiers and at both ends
+    pub fs_everywhere: bool,
     /// `(?#...)` comments between tokens
     pub comments: bool,
     /// case-insensitive literals as `(?i)a(?-i)` inside a group instead of `(?i:a)`
@@ -50,9 +55,24 @@ fn is_atomic_syntax(e: &Expr) -> bool {
 }
 
 impl<'a> Up<'a> {
+    fn ws(&mut self) {
+        match self.st.fs_kind {
+            0 => self.out.push(' '),
+            1 => self.out.push_str(" # c\n "),
+            _ => self.out.push_str("\t#a\n#b c\n  "),
+        }
+    }
+
+    /// optional blank at a place where only `fs_everywhere` puts one
+    fn ws_opt(&mut self) {
+        if self.st.freespace && self.st.fs_everywhere {
+            self.ws();
+        }
+    }
+
     fn sep(&mut self) {
         if self.st.freespace {
-            self.out.push(' ');
+            self.ws();
         }
         if self.st.comments {
             self.out.push_str("(?#c)");
@@ -82,7 +102,9 @@ impl<'a> Up<'a> {
 
     fn grouped(&mut self, e: &Expr) {
         self.out.push_str("(?:");
+        self.ws_opt();
         self.expr(e, 0);
+        self.ws_opt();
         self.out.push(')');
     }
 
@@ -160,7 +182,9 @@ impl<'a> Up<'a> {
                 }
                 for (i, c) in v.iter().enumerate() {
                     if i > 0 {
+                        self.ws_opt();
                         self.out.push('|');
+                        self.ws_opt();
                     }
                     // an alternative that is itself an alternation must keep its own group
                     if let Expr::Alt(_) = c {
@@ -180,7 +204,9 @@ impl<'a> Up<'a> {
                 } else {
                     self.out.push('(');
                 }
+                self.ws_opt();
                 self.expr(c, 0);
+                self.ws_opt();
                 self.out.push(')');
             }
             Expr::LookAround(c, la) => {
@@ -196,7 +222,9 @@ impl<'a> Up<'a> {
                     LookAround::LookBehind => "(?<=",
                     LookAround::LookBehindNeg => "(?<!",
                 });
+                self.ws_opt();
                 self.expr(c, 0);
+                self.ws_opt();
                 self.out.push(')');
             }
             Expr::Repeat { child, lo, hi, greedy } => {
@@ -233,7 +261,9 @@ impl<'a> Up<'a> {
                     }
                 }
                 self.out.push_str("(?>");
+                self.ws_opt();
                 self.expr(c, 0);
+                self.ws_opt();
                 self.out.push(')');
             }
             Expr::KeepOut => self.out.push_str("\\K"),
@@ -289,6 +319,7 @@ impl<'a> Up<'a> {
         } else {
             self.grouped(child);
         }
+        self.ws_opt();
         match (lo, hi) {
             (0, 1) => self.out.push('?'),
             (0, usize::MAX) => self.out.push('*'),
@@ -306,6 +337,7 @@ impl<'a> Up<'a> {
             }
         }
         if !greedy {
+            self.ws_opt();
             self.out.push('?');
         }
     }
@@ -333,8 +365,12 @@ pub fn unparse(e: &Expr, st: &Style) -> Option<String> {
     let mut u = Up { st, group: 0, out: String::new(), ok: true };
     if st.freespace {
         u.out.push_str("(?x)");
+        u.ws_opt();
     }
     u.expr(e, 0);
+    if st.freespace {
+        u.ws_opt();
+    }
     if u.ok {
         Some(u.out)
     } else {
